@@ -21,7 +21,7 @@ from common import coq_ustr
 PID = 'C06'
 MODNAME = 'C06'
 PROPS_FILE = 'Props/C06.v'
-COQ_FILES = ['Resolver/Images.v', 'Model/Represent.v', 'Proofs/DumpProofs.v', 'Props/C06.v']
+COQ_FILES = ['Resolver/Images.v', 'Model/Represent.v', 'Proofs/DumpProofs.v', 'Proofs/SweetenKeeps.v', 'Props/C06.v']
 ASSUMPTIONS = [
     'purity ("never modifies the object graph") and determinism are trivial in a functional model and therefore NOT claimed from it: observed at run time (snapshot, double dump)',
     'supported values: no bytes / sets (written with !!binary / !!set by PyYAML), datetime offsets in whole minutes',
